@@ -674,12 +674,12 @@ package fit
 //@ func (d *decoder) parseTimeStamp(dm *defmsg, fieldv reflect.Value, pfield *field)
 //@   props C01 C12
 //@   slow local-ref 60
-//@   ensures [invalid] {C12} old(tmpU32(d, dm)) == 0xFFFFFFFF ==> d.timestamp == old(d.timestamp) && d.lastTimeOffset == old(d.lastTimeOffset) && rvtime(fieldv) == old(rvtime(fieldv))
-//@   ensures [utc] {C12} old(tmpU32(d, dm)) != 0xFFFFFFFF && fkind(pfield.t) == 1 ==> tsec(rvtime(fieldv)) == 631065600+int(old(tmpU32(d, dm))) && tns(rvtime(fieldv)) == 0 && tzoff(rvtime(fieldv)) == 0
+//@   ensures [invalid] {C12 C06} old(tmpU32(d, dm)) == 0xFFFFFFFF ==> d.timestamp == old(d.timestamp) && d.lastTimeOffset == old(d.lastTimeOffset) && rvtime(fieldv) == old(rvtime(fieldv))
+//@   ensures [utc] {C12 C06} old(tmpU32(d, dm)) != 0xFFFFFFFF && fkind(pfield.t) == 1 ==> tsec(rvtime(fieldv)) == 631065600+int(old(tmpU32(d, dm))) && tns(rvtime(fieldv)) == 0 && tzoff(rvtime(fieldv)) == 0
 //@   ensures [rebase] {C12} old(tmpU32(d, dm)) != 0xFFFFFFFF && fkind(pfield.t) == 1 && pfield.num == 253 ==> d.timestamp == old(tmpU32(d, dm)) && d.lastTimeOffset == int32(old(tmpU32(d, dm))&0x1F)
 //@   ensures [no-rebase] {C12} !(old(tmpU32(d, dm)) != 0xFFFFFFFF && fkind(pfield.t) == 1 && pfield.num == 253) ==> d.timestamp == old(d.timestamp) && d.lastTimeOffset == old(d.lastTimeOffset)
-//@   ensures [local-noref] {C12} old(tmpU32(d, dm)) != 0xFFFFFFFF && fkind(pfield.t) != 1 && !hasRef(old(d.timestamp)) ==> tsec(rvtime(fieldv)) == 631065600+int(old(tmpU32(d, dm))) && tns(rvtime(fieldv)) == 0 && tzoff(rvtime(fieldv)) == 0
-//@   ensures [local-ref] {C12} old(tmpU32(d, dm)) != 0xFFFFFFFF && fkind(pfield.t) != 1 && hasRef(old(d.timestamp)) ==> tsec(rvtime(fieldv)) == 631065600+int(old(d.timestamp)) && tns(rvtime(fieldv)) == 0 && tzoff(rvtime(fieldv)) == int(old(tmpU32(d, dm)))-int(old(d.timestamp))
+//@   ensures [local-noref] {C12 C06} old(tmpU32(d, dm)) != 0xFFFFFFFF && fkind(pfield.t) != 1 && !hasRef(old(d.timestamp)) ==> tsec(rvtime(fieldv)) == 631065600+int(old(tmpU32(d, dm))) && tns(rvtime(fieldv)) == 0 && tzoff(rvtime(fieldv)) == 0
+//@   ensures [local-ref] {C12 C06} old(tmpU32(d, dm)) != 0xFFFFFFFF && fkind(pfield.t) != 1 && hasRef(old(d.timestamp)) ==> tsec(rvtime(fieldv)) == 631065600+int(old(d.timestamp)) && tns(rvtime(fieldv)) == 0 && tzoff(rvtime(fieldv)) == int(old(tmpU32(d, dm)))-int(old(d.timestamp))
 //@   ensures [other-cells] {C12} forall c int :: c != rvcell(fieldv) ==> rvtimeat(fieldv, c) == old(rvtimeat(fieldv, c))
 //@   requires wf_defmsg(dm) && inv_io(d)
 //@   requires [timefield] rvmt(fieldv) < 0xFFF0 && rvttag(fieldv) == typetag[time.Time]()
@@ -923,7 +923,7 @@ package fit
 
 //@ func (f *File) add(msg reflect.Value)
 //@   props C01 C03
-//@   ensures [wf] {C03} old(file_ready(f) && wf_file(f)) ==> wf_file(f)
+//@   ensures [wf] {C03 C07} old(file_ready(f) && wf_file(f)) ==> wf_file(f)
 //@   gassign {C03} nadded(f) := nadded(f)+1
 //@   nosubtype
 //@   requires [valid] rvvalid(msg)
